@@ -13,7 +13,7 @@ EVIDENCE = dict(
          "words). Real Note / Visualization / module / project objects are driven over complete old-word axes with "
          "sampled new values and complete new-value axes with sampled old words, every NOTECMD x velocity x boundary "
          "16-bit values for the cell codec, random pattern byte images for the row-major identity (also through a "
-         "written file, and again after cells were edited through previously handed-out note objects), and the file-only packed words SMII / SFGS; Trace_RVWords compares each result with "
+         "written file, again after cells were edited through previously handed-out note objects, and after a second image was assigned to the same pattern), and the file-only packed words SMII / SFGS; Trace_RVWords compares each result with "
          "SetSub/GetSub/NoteBytes/Image. evaluations = (object, setter, value) executions; non-trivial = old "
          "sub-field value non-zero or result differs from old word.",
     explanation="array events: one event carries a whole axis")
@@ -183,6 +183,22 @@ def run(ctx):
                        "cells": [[int(x.note), x.vel, x.module, x.ctl, x.val] for x in held], "back": back2, "vers": [2, 1, 2, 1],
                        "pdta": pdta2[0] if pdta2 else [], "reloaded": list(p3.patterns[0].raw_data)})
         ctx.count_case(("pattern-edited", k, hash(bytes(image))), nontrivial=True)
+        # a second image assigned to the same (now non-blank) pattern: blank cells of the image blank the pattern's cells
+        image3 = []
+        for _ in range(ncell):
+            if rnd.random() < 0.45:
+                c = [0, 0, 0, 0, 0]
+            else:
+                c = [rnd.choice(cmds), rnd.randrange(130), rnd.randrange(65536), rnd.randrange(65536), rnd.randrange(65536)]
+            image3 += list(struct.pack("<BBHHH", *c))
+        pat.raw_data = bytes(image3)
+        data3 = p.read()
+        pdta3 = [list(pl) for cid, pl in tlv.split(data3) if cid == b"PDTA"]
+        p4 = api.read_sunvox_file(io.BytesIO(data3))
+        events.append({"op": "pattern", "lines": lines, "tracks": tracks, "image": image3,
+                       "cells": [[int(x.note), x.vel, x.module, x.ctl, x.val] for line in pat.data for x in line], "back": list(pat.raw_data),
+                       "vers": [2, 1, 2, 1], "pdta": pdta3[0] if pdta3 else [], "reloaded": list(p4.patterns[0].raw_data)})
+        ctx.count_case(("pattern-reassigned", k, hash(bytes(image3))), nontrivial=True)
     # ---- file-only packed words
     for always in (False, True):
         for ch in list(range(0, 18)) + ([31, 255] if not q else []):
